@@ -95,9 +95,11 @@ Listen == [do |-> "listen", group |-> "default", id |-> "@SID@"]
 Canary(k) ==
   << [do |-> "listen", group |-> "canary", id |-> "@SID@"],
      Http("canary-create", "POST", "/promises", "{\"id\":\"canary-" \o k \o "-@SID@\",\"timeout\":@NOW+300@,\"tags\":{\"resonate:invoke\":\"poll://canary/@SID@\"}}"),
-     Sleep(800),
-     [do |-> "received", name |-> "canary-" \o k, group |-> "canary", id |-> "@SID@"],
-     [do |-> "rows", name |-> "canary-" \o k] >>
+     \* the harness repeats these two looks until what is awaited is there, for at most 12 s (the
+     \* periods involved are 50 - 300 ms: a loaded machine is slow, a wedged server never gets there)
+     [do |-> "received", name |-> "canary-" \o k, group |-> "canary", id |-> "@SID@", ms |-> 12000,
+      until |-> [task |-> "__invoke:canary-" \o k \o "-@SID@"]],
+     [do |-> "rows", name |-> "canary-" \o k, ms |-> 12000, until |-> [table |-> "promises", id |-> "canary-" \o k \o "-@SID@", state |-> 16]] >>
 Aftermath(ms) == << Sleep(ms), Probe("after-cycles"), Db >> \o Canary("1") \o << Kill, Start, Probe("after-restart"), Sleep(ms), Probe("after-restart-cycles"), Db >> \o Canary("2")
 
 PromiseFields == << <<"id", "\"@SID@\"">>, <<"timeout", "@NOW+400@">>,
